@@ -3,7 +3,7 @@ use crate::explore::*;
 use crate::menu::*;
 use crate::report::Report;
 use crate::world::*;
-use serde_json::json;
+use serde_json::{json, Value};
 use std::sync::Arc;
 use std::time::Duration;
 
@@ -272,6 +272,197 @@ pub fn scenarios(thorough: bool) -> Vec<Scenario> {
     v
 }
 
+/// Reference cycles: concurrent moves of objects below each other (each submitted document is a well-formed tree with
+/// unique identifiers) leave, after the exchange, objects that refer to each other in a cycle although nothing is in
+/// conflict. Every read operation must still return. A stack overflow aborts the whole process, so the histories are
+/// run in a CHILD process (this executable with the pseudo-property "C08-cycles-child"); the parent reports an
+/// abnormal termination as "the operation aborted the process".
+fn cycle_histories() -> Vec<(&'static str, usize, Vec<Value>, Vec<Op>, Vec<&'static str>)> {
+    let two = (
+        "two-objects-moved-below-each-other",
+        2usize,
+        vec![
+            json!({"a♭": {"_id": "A", "n": 1, "child♭": null}, "b♭": {"_id": "B", "n": 2, "child♭": null}}),
+            json!({"a♭": {"_id": "A", "n": 1, "child♭": {"_id": "B", "n": 2, "child♭": null}}, "b♭": null}),
+            json!({"a♭": null, "b♭": {"_id": "B", "n": 2, "child♭": {"_id": "A", "n": 1, "child♭": null}}}),
+        ],
+        vec![Op::Upd(0, 0), Op::Commit(0, 0), Op::Sync(1, 0), Op::Upd(0, 1), Op::Commit(0, 0), Op::Upd(1, 2), Op::Commit(1, 0), Op::Sync(1, 0), Op::Sync(0, 1)],
+        vec!["A", "B"],
+    );
+    let three = (
+        "three-objects-moved-in-a-ring",
+        3usize,
+        vec![
+            json!({"a♭": {"_id": "A", "child♭": null}, "b♭": {"_id": "B", "child♭": null}, "c♭": {"_id": "C", "child♭": null}}),
+            json!({"a♭": {"_id": "A", "child♭": {"_id": "B", "child♭": null}}, "b♭": null, "c♭": {"_id": "C", "child♭": null}}),
+            json!({"a♭": {"_id": "A", "child♭": null}, "b♭": {"_id": "B", "child♭": {"_id": "C", "child♭": null}}, "c♭": null}),
+            json!({"a♭": null, "b♭": {"_id": "B", "child♭": null}, "c♭": {"_id": "C", "child♭": {"_id": "A", "child♭": null}}}),
+        ],
+        vec![Op::Upd(0, 0), Op::Commit(0, 0), Op::Sync(1, 0), Op::Sync(2, 0), Op::Upd(0, 1), Op::Commit(0, 0), Op::Upd(1, 2), Op::Commit(1, 0), Op::Upd(2, 3), Op::Commit(2, 0),
+            Op::Sync(0, 1), Op::Sync(0, 2), Op::Sync(1, 0), Op::Sync(2, 0)],
+        vec!["A", "B", "C"],
+    );
+    let arrays = (
+        "two-array-elements-moved-into-each-other",
+        2usize,
+        vec![
+            json!({"l♭": [{"_id": "A", "k♭": []}, {"_id": "B", "k♭": []}]}),
+            json!({"l♭": [{"_id": "A", "k♭": [{"_id": "B", "k♭": []}]}]}),
+            json!({"l♭": [{"_id": "B", "k♭": [{"_id": "A", "k♭": []}]}]}),
+        ],
+        vec![Op::Upd(0, 0), Op::Commit(0, 0), Op::Sync(1, 0), Op::Upd(0, 1), Op::Commit(0, 0), Op::Upd(1, 2), Op::Commit(1, 0), Op::Sync(1, 0), Op::Sync(0, 1)],
+        vec!["A", "B"],
+    );
+    vec![two, three, arrays]
+}
+
+/// child side: prints one line per completed call group and exits 0; a panic caught by the guard exits 3
+pub fn cycles_child() {
+    let mut calls = 0u64;
+    for (name, nrep, docs, hist, ids) in cycle_histories() {
+        let m = crate::menu::menu(docs);
+        let mut w = World::build(nrep, m, &hist);
+        // vacuity indicator: the stored (flattened) objects of replica 0 refer to each other in a cycle
+        {
+            w.focus();
+            let mm = &w.reps[0].m;
+            let refs = |i: &str| -> Vec<String> {
+                let mut out = vec![];
+                if let Ok(o) = mm.get_value(i, None) {
+                    for (k, v) in &o {
+                        if k.ends_with('\u{266D}') {
+                            if let Some(s) = v.as_str() {
+                                if let Some(arr) = s.strip_prefix('^') {
+                                    let _ = arr;
+                                    if let Ok(win) = mm.get_winner(s) {
+                                        if let Ok(a) = mm.verif_array_order(s, &win) {
+                                            out.extend(a.iter().filter_map(|x| x.as_str().map(|x| x.to_string())));
+                                        }
+                                    }
+                                } else {
+                                    out.push(s.to_string());
+                                }
+                            }
+                        }
+                    }
+                }
+                out
+            };
+            let mut cyc = false;
+            for start in &ids {
+                let mut cur = vec![start.to_string()];
+                for _ in 0..4 {
+                    cur = cur.iter().flat_map(|c| refs(c)).collect();
+                    if cur.iter().any(|c| c == start) {
+                        cyc = true;
+                    }
+                }
+            }
+            println!("CYCLE {} {}", name, cyc);
+        }
+        for round in 0..2 {
+            for r in 0..nrep {
+                w.focus();
+                let mm = &w.reps[r].m;
+                let mut roots: Vec<Option<String>> = vec![None];
+                roots.extend(ids.iter().map(|i| Some(i.to_string())));
+                for root in roots {
+                    let rr = root.clone();
+                    let o = crate::guard::call("read", || mm.read(rr.as_deref()).map(|_| ()).map_err(|e| e.to_string()));
+                    calls += 1;
+                    if let Err(p) = o {
+                        println!("PANIC {} replica {} read({:?}): {}", name, r, root, p);
+                        std::process::exit(3);
+                    }
+                }
+                for i in &ids {
+                    let o = crate::guard::call("get_value", || mm.get_value(i, None).map(|_| ()).map_err(|e| e.to_string()));
+                    calls += 1;
+                    if let Err(p) = o {
+                        println!("PANIC {} replica {} get_value({}): {}", name, r, i, p);
+                        std::process::exit(3);
+                    }
+                }
+                let _ = crate::guard::call("in_conflict", || mm.in_conflict());
+                calls += 1;
+            }
+            if round == 0 {
+                // then commit whatever the exchange left to resolve, exchange again, and read once more
+                for r in 0..nrep {
+                    w.apply(&Op::Commit(r, 0));
+                }
+                for r in 1..nrep {
+                    w.apply(&Op::Sync(0, r));
+                }
+                for r in 1..nrep {
+                    w.apply(&Op::Sync(r, 0));
+                }
+            }
+        }
+        println!("DONE {} calls so far {}", name, calls);
+    }
+    println!("ALL-RETURNED {}", calls);
+}
+
+fn cycle_pass(rep: &mut Report) {
+    let exe = std::env::current_exe().expect("own executable");
+    let mut child = match std::process::Command::new(exe).arg("C08-cycles-child").stdout(std::process::Stdio::piped()).stderr(std::process::Stdio::piped()).spawn() {
+        Ok(c) => c,
+        Err(e) => {
+            eprintln!("MACHINERY: cannot start the reference-cycle child process: {}", e);
+            std::process::exit(2);
+        }
+    };
+    let t0 = std::time::Instant::now();
+    let status = loop {
+        match child.try_wait() {
+            Ok(Some(s)) => break Some(s),
+            Ok(None) => {
+                if t0.elapsed() > Duration::from_secs(120) {
+                    let _ = child.kill();
+                    let _ = child.wait();
+                    break None;
+                }
+                std::thread::sleep(Duration::from_millis(50));
+            }
+            Err(_) => break None,
+        }
+    };
+    let mut out = String::new();
+    let mut err = String::new();
+    use std::io::Read;
+    if let Some(mut o) = child.stdout.take() {
+        let _ = o.read_to_string(&mut out);
+    }
+    if let Some(mut e) = child.stderr.take() {
+        let _ = e.read_to_string(&mut err);
+    }
+    let names: Vec<&str> = cycle_histories().iter().map(|h| h.0).collect();
+    let done: Vec<&str> = out.lines().filter_map(|l| l.strip_prefix("DONE ")).collect();
+    let calls: u64 = out.lines().rev().find_map(|l| l.strip_prefix("ALL-RETURNED ").and_then(|n| n.trim().parse().ok())).unwrap_or(0);
+    let ok = status.as_ref().is_some_and(|s| s.success()) && calls > 0;
+    let cycles: Vec<&str> = out.lines().filter_map(|l| l.strip_prefix("CYCLE ")).filter(|l| l.ends_with(" true")).collect();
+    rep.set("reference_cycle_pass", json!({"histories": names, "completed": done.len(), "calls_returned": calls, "histories_whose_stored_objects_form_a_reference_cycle": cycles.len(), "child_exit": status.as_ref().map(|s| format!("{:?}", s))}));
+    rep.add_u64("evaluations", calls);
+    if !ok {
+        let failing = names.get(done.len()).copied().unwrap_or("?");
+        let what = match &status {
+            None => "did-not-return",
+            Some(s) if s.code() == Some(3) => "panicked",
+            Some(_) => "aborted-the-process",
+        };
+        let tail: String = err.lines().rev().take(6).collect::<Vec<_>>().into_iter().rev().collect::<Vec<_>>().join(" | ");
+        rep.violations.push(Violation {
+            property: "C08".into(),
+            signature: format!("C08:reference-cycle:{}:{}", failing, what),
+            scenario: "reference-cycles".into(),
+            history: vec![],
+            detail: json!({"input": {"history": failing, "documents": cycle_histories().into_iter().find(|h| h.0 == failing).map(|h| h.2)}, "child_stdout": out.lines().collect::<Vec<_>>(), "child_stderr_tail": tail,
+                "child_exit": status.map(|s| format!("{:?}", s))}),
+        });
+    }
+}
+
 pub fn run(thorough: bool) {
     let tier = if thorough { "thorough" } else { "quick" };
     let mut rep = Report::new("C08", tier, "model_checking");
@@ -280,6 +471,7 @@ pub fn run(thorough: bool) {
     let mut scs = vec![];
     let mut outcomes = std::collections::BTreeSet::new();
     let mut probe_ops = 0;
+    cycle_pass(&mut rep);
     'outer: for pool in if thorough { vec![1usize, 2, 16] } else { vec![1usize, 4] } {
         for sc in scenarios(thorough) {
             // a call that did not return was found: the verdict is known, the remaining scenarios would
